@@ -1007,3 +1007,32 @@ ASSUMPTIONS = ["JPEG: a stream that leaves the T.81 marker chain before a frame 
                "EOI/SOS first, truncated frame header) declares no size in the sense of the statement: result unconstrained there",
                "BMP: signed little-endian width / height at 18 / 22 as in the property's format clause (BITMAPINFOHEADER family)"]
 BOUNDED = []
+
+
+def known_findings(kf, violations, repo, tier):
+    """Recorded genuine defects (known_findings.json).  Per finding: the recorded witness is replayed on the real code; a finding
+    whose witness still fails prints KNOWN-FINDING and covers exactly its own obligation -- unless the bounded native sweep
+    OUTSIDE the recorded exclusion also fails (then the obligation stays a new violation)."""
+    import json
+    import subprocess
+    from concurrent.futures import ThreadPoolExecutor
+    vio_ids = {v["id"] for v in violations}
+    root = os.path.dirname(os.path.dirname(os.path.abspath(__file__)))
+
+    def one(f):
+        req = {"property": "C14", "obligation": f["obligation"], "known_finding": f["id"], "witness": f.get("witness"), "repo": repo}
+        try:
+            p = subprocess.run(["/venv/bin/python", os.path.join(root, "replay", "run.py")], input=json.dumps(req), capture_output=True, text=True,
+                               timeout=600, cwd=root, env=dict(os.environ, VERIF_REPO=repo))
+            lines = [l for l in p.stdout.splitlines() if l.startswith("{")]
+            res = json.loads(lines[-1]) if lines else {"reproduced": False, "note": (p.stderr or p.stdout)[-500:]}
+        except Exception as e:  # noqa
+            res = {"reproduced": False, "note": str(e)}
+        still = bool(res.get("reproduced"))
+        outside = res.get("outside_exclusion")
+        covers = [f["obligation"]] if still and outside is None and f["obligation"] in vio_ids else []
+        return {"finding": f["id"], "still_fails": still, "line": f"{f['id']}: {f['what']}", "covers": covers, "exclusion": f.get("exclusion"),
+                "witness_replay": str(res.get("observed", res.get("note", "")))[:300],
+                "outside_exclusion": "nothing fails outside the exclusion (bounded native sweep)" if outside is None else str(outside)[:400]}
+    with ThreadPoolExecutor(max_workers=8) as ex:
+        return list(ex.map(one, kf))
